@@ -342,8 +342,6 @@ impl<Aux> Vm<'_, Aux> {
         #[cfg(feature = "verif-hooks")]
         let _verif_run_guard = crate::verif::RunGuard::enter(&self.runtime_data);
         let len = program.bytecode.len();
-        // FIXME: should store in VM
-        let mut remaining_iters = self.max_instr;
         let bytecode_ptr = program.bytecode.as_ptr();
         let payload_to_error =
             |err,
@@ -362,8 +360,10 @@ impl<Aux> Vm<'_, Aux> {
             };
 
         while *instr_ptr < len {
-            remaining_iters -= 1;
-            if remaining_iters == 0 {
+            // the budget of the run is shared with the script functions that native functions
+            // call back into (run_function re-enters this loop)
+            self.remaining_iters -= 1;
+            if self.remaining_iters == 0 {
                 return Err(payload_to_error(
                     ExecutionErrorPayload::Timeout,
                     *instr_ptr,
